@@ -208,7 +208,12 @@ package sqlittle
 //@   loop 4 invariant forall qi int :: 0 <= qi && qi < $i ==> (forall k int :: PKFIRST(schema, qi, k) ==> res[qi] == k)
 //@   loop 5 invariant forall qm int :: 0 <= qm && qm < $i ==> !streq(cols[qm], n)
 
+// own-errors: these glue functions have no failure of their own: whatever error they return was
+// returned by something they called (column resolution, opening the table, key conversion, the scan) —
+// or, where listed, is the corruption report of a dangling index entry. Decided by a scan of the SSA
+// (every returned error value is traced to its sources), not by a solver.
 //@ func sqlittle.select_
+//@   own-errors none
 //@   ghost-entry scan_ok = true
 //@   ensures-before-exit [scanerr] !scan_ok ==> r0 != nil
 //@   ghost-exit scan_ok = old(scan_ok)
@@ -231,6 +236,7 @@ package sqlittle
 //@   free-requires cb != nil && CIS_OK(ci) && !viaidx && !vianr
 
 //@ func sqlittle.selectNonRowid
+//@   own-errors none
 //@   ghost-entry scan_ok = true
 //@   ensures-before-exit [scanerr] !scan_ok ==> r0 != nil
 //@   ghost-exit scan_ok = old(scan_ok)
@@ -257,6 +263,7 @@ package sqlittle
 // for an absent rowid), and every failure below it is returned (sr_failed: the last selectRowid failed).
 //@ ghost sr_failed bool
 //@ func sqlittle.selectRowid
+//@   own-errors none
 //@   props C04 C06 C12
 //@   modifies * -M:S_db_KeyCol -M:S_sqlittle_columnIndex hdr_valid hdr_ps hdr_cookie jr_pos peer_state sr_failed
 //@   requires [dbnn] db != nil
@@ -293,6 +300,7 @@ package sqlittle
 //@ macro VIAROW(row) = ult(tfirst(tabroot, VIARID()), p_hi(tabroot)) && tb_rowid(tabroot, tfirst(tabroot, VIARID())) == VIARID() && rowfor(row, VIARID(), tb_payload(tabroot, tfirst(tabroot, VIARID())))
 
 //@ func sqlittle.indexedSelect
+//@   own-errors ErrCorrupted
 //@   ghost-entry scan_ok = true
 //@   ensures-before-exit [scanerr] !scan_ok ==> r0 != nil
 //@   ghost-exit scan_ok = old(scan_ok)
@@ -323,6 +331,7 @@ package sqlittle
 //@   ghost-exit halt = halt || done
 
 //@ func sqlittle.indexedSelectEq
+//@   own-errors ErrCorrupted
 //@   ghost-entry scan_ok = true
 //@   ensures-before-exit [scanerr] !scan_ok ==> r0 != nil
 //@   ghost-exit scan_ok = old(scan_ok)
@@ -401,6 +410,7 @@ package sqlittle
 // handed to the user is the table row stored under exactly that key is not stated (it would need the
 // nested scan's position ghosts exported through every walker protocol).
 //@ func sqlittle.indexedSelectNonRowid
+//@   own-errors ErrCorrupted
 //@   ghost-entry scan_ok = true
 //@   ensures-before-exit [scanerr] !scan_ok ==> r0 != nil
 //@   ghost-exit scan_ok = old(scan_ok)
@@ -444,6 +454,7 @@ package sqlittle
 //@   ghost-exit halt = true
 
 //@ func sqlittle.indexedSelectEqNonRowid
+//@   own-errors ErrCorrupted
 //@   ghost-entry scan_ok = true
 //@   ensures-before-exit [scanerr] !scan_ok ==> r0 != nil
 //@   ghost-exit scan_ok = old(scan_ok)
@@ -526,6 +537,7 @@ package sqlittle
 //@   requires [locked] lk_shared
 
 //@ func sqlittle.pkSelectNonRowid
+//@   own-errors none
 //@   ghost-entry scan_ok = true
 //@   ensures-before-exit [scanerr] !scan_ok ==> r0 != nil
 //@   ghost-exit scan_ok = old(scan_ok)
